@@ -16,3 +16,7 @@ claim('C20',
   'bounded/inductive model checking of the real transition function: LLVM IR of the unmodified btok_pwd.c encoded to SMT-LIB (own loop-free encoder), one-step rules proved from every state of an inductive invariant (histories of any length) plus k-step monitors; z3 decides, cvc5 must agree; encoder validated against the gcc-built function by a solver query on every run',
   'trusted: clang-14 -O1 lowering + tools/ir2smt.py (validated per run against gcc build on all 256x16 inputs), z3/cvc5, the rule formalisation in props/C20.py (lenient reading: PUK-authenticated sessions may deactivate/activate)', 'DESIGN.md 3/C20',
   'LLVM-IR to SMT-LIB encoding of btokPwdTransition; inductive one-step + bounded k-step queries decided by z3 and cvc5')
+
+claim('C08',
+  'bounded model checking of the real decoders: every input of length 0..N (N=12 quick, 16 thorough) with symbolic content in an end-aligned heap object; assertions: consumed <= input, value window inside input, acceptance == reference DER grammar, accept => re-encode equals accepted octets, encode => decode inverts; CBMC pointer/bounds checks are the memory oracle',
+  'trusted: CBMC memory model, the DER grammar model in harness/C08/der.c (written from der.h), REL (NDEBUG) profile; reads BEFORE the start of the input are only visible when n == N', 'DESIGN.md 3/C08')
